@@ -32,10 +32,89 @@ def run(ck):
     progs, cov, nfaults, nontriv, audited = semcheck.check_all(ck, "C18", 150 if quick else 2500, faults_per_program=0,
                                                                tblgen_sample=(25 if quick else 400))
     semcheck.scope_leak_probes(ck, "C18")
+    order_probes(ck)
     ck.count("generated", len(progs) + nfaults, nontriv if not nfaults else set(range(len(nontriv) + nfaults)),
              sample={"files": progs[0].files}, seeded_faults=nfaults,
              coverage=semcheck.cov_summary(cov, ["decl:", "fold:", "class:", "stmt:"]), llvm_tblgen_audit=audited)
     return ck.finish(extra_cov={"traces_validated_against_impl": sum(st["cases"] for st in stats.values())}, **FINISH)
+
+
+def order_probes(ck):
+    """'in source order': declarations nested in containers (defset / let / foreach / if / multiclass, up to three deep, with and
+    without braces) and declared between them; the top-level entries of the outline, and the defs listed under a defset, must be
+    ordered by the position of their declaring identifier (theorem document_symbols_source_order for the model)"""
+    rng = ck.rng
+    quick = ck.tier == "quick"
+    texts = []
+    n = [0]
+
+    def fresh(p):
+        n[0] += 1
+        return "%s%d" % (p, n[0])
+
+    def decl(depth):
+        k = rng.choice(["class", "def", "multiclass", "defset", "defvar", "defm", "anon", "container", "container"]) if depth > 0 else \
+            rng.choice(["class", "def", "multiclass", "defvar", "defm", "anon"])
+        if k == "class":
+            return "class %s%s%s" % (fresh("C"), rng.choice(["", "<int p>", "<int p, string q = \"s\">"]), rng.choice([";", " : Base;", " { int f = 1; }"]))
+        if k == "def":
+            return "def %s : Base%s" % (fresh("d"), rng.choice([";", " { int g = 2; }"]))
+        if k == "anon":
+            return "def : Base;"
+        if k == "multiclass":
+            return "multiclass %s%s { def _x : Base; %s }" % (fresh("M"), rng.choice(["", "<int n>"]), decl(0) if rng.random() < 0.3 else "")
+        if k == "defvar":
+            return "defvar %s = 1;" % fresh("v")
+        if k == "defm":
+            return "defm %s : MM;" % fresh("dm")
+        if k == "defset":
+            inner = " ".join(decl(depth - 1) for _ in range(rng.choice([0, 1, 2, 3])))
+            return "defset list<Base> %s = { %s }" % (fresh("S"), inner)
+        c = rng.choice(["let", "foreach", "if", "ifelse", "defset"])
+        body = [decl(depth - 1) for _ in range(rng.choice([1, 1, 2, 3]))]
+        braces = len(body) != 1 or rng.random() < 0.6
+        b = ("{ " + " ".join(body) + " }") if braces else body[0]
+        if c == "let":
+            return "let f = 3 in " + b
+        if c == "foreach":
+            return "foreach i = [1, 2] in " + b
+        if c == "if":
+            return "if 1 then " + b
+        if c == "ifelse":
+            e = [decl(depth - 1) for _ in range(rng.choice([1, 2]))]
+            eb = ("{ " + " ".join(e) + " }") if (len(e) != 1 or rng.random() < 0.5) else e[0]
+            return "if 0 then " + b + " else " + eb
+        return "defset list<Base> %s = { %s }" % (fresh("S"), " ".join(body))
+
+    for _ in range(150 if quick else 5000):
+        parts = ["class Base { int f = 0; }", "multiclass MM { def _m : Base; }"] + [decl(3) for _ in range(rng.choice([2, 3, 5]))]
+        texts.append("\n".join(parts) + "\n")
+    outs = core.impl(["ws " + json.dumps({"files": {"/main.td": t}, "root": "/main.td", "queries": [["document_symbol", "/main.td"]]}) for t in texts], tag="ord18")
+    nontriv = set()
+    for t, o in zip(texts, outs):
+        try:
+            syms = json.loads(o)[0]
+        except Exception:
+            ck.fail(["C18", "order", "crash"], "outline query failed: %s" % o[:100], {"files": {"/main.td": t}, "root": "/main.td"}, o[:200], "an outline")
+            continue
+        if not isinstance(syms, list):
+            continue
+        nontriv.add(t)
+
+        def sorted_ok(lst):
+            starts = [x["range"][0] for x in lst]
+            return starts == sorted(starts)
+        bad = None
+        if not sorted_ok(syms):
+            bad = [(x["name"], x["range"][0]) for x in syms]
+        else:
+            for x in syms:
+                if x["kind"] == "Defset" and not sorted_ok(x["children"]):
+                    bad = [(c["name"], c["range"][0]) for c in x["children"]]
+        if bad:
+            ck.fail(["C18", "order", core.sig_hash(t)], "outline entries are not in source order: %s" % bad[:8],
+                    {"files": {"/main.td": t}, "root": "/main.td", "detail": {"probe": "order"}}, json.dumps(bad)[:300], "ascending positions")
+    ck.count("order_probes", len(texts), nontriv, sample={"text": texts[0][:300]})
 
 
 def replay(ck, path):
